@@ -48,10 +48,43 @@ def _fresh_dims(prefix, n):
     return ds
 
 
+def loop_state(node, env, tvar=None, lvar=None):
+    """identify the loop-carried state from the LOOP BODY, not from the names the repository happens to use:
+       tensor variable = a name that is bound to a tensor before the loop and both read and assigned in the body;
+       list variable   = a name bound to a list before the loop on which the body calls .append.
+       The configured names are only a tie-break."""
+    import ast
+    stored, loaded, appended = set(), set(), set()
+    for st in node.body:
+        for q in ast.walk(st):
+            if isinstance(q, ast.Name):
+                (stored if isinstance(q.ctx, ast.Store) else loaded).add(q.id)
+            if isinstance(q, ast.Call) and isinstance(q.func, ast.Attribute) and q.func.attr in ('append', 'insert', 'extend') \
+                    and isinstance(q.func.value, ast.Name):
+                appended.add(q.func.value.id)
+    tgt = {q.id for q in ast.walk(node.target) if isinstance(q, ast.Name)}
+    tens = sorted(k for k in (stored & loaded) - tgt if isinstance(env.get(k), STensor))
+    lists = sorted(k for k in appended if isinstance(env.get(k), (list, SList)))
+
+    def pick(cands, pref, what):
+        if pref in cands or (pref is not None and not cands and pref in env):
+            return pref
+        if len(cands) == 1:
+            return cands[0]
+        if not cands:
+            return None
+        raise Unsupported('cannot identify the loop-carried %s: candidates %s' % (what, cands))
+    return pick(tens, tvar, 'tensor'), pick(lists, lvar, 'list')
+
+
 def fwd_level_rule(side, tvar, lvar, spatial, Jsym, region=None):
     """for j in range(J): <tvar>, item = one_level(<tvar>); <lvar>.append(item)"""
-    def rule(it, node, rng, env):
+    def rule(it, node, rng, env, tvar=tvar, lvar=lvar):
         c = ctx()
+        tvar, lvar = loop_state(node, env, tvar, lvar)
+        if tvar is None or lvar is None:
+            raise Unsupported('level loop without a carried tensor and an accumulating list')
+        side.names = (tvar, lvar)
         side.rec.append(('init', env[tvar], env[lvar], rng))
         T0 = env[tvar]
         j = fresh_int('j')
@@ -83,8 +116,12 @@ def fwd_level_rule(side, tvar, lvar, spatial, Jsym, region=None):
 
 def inv_level_rule(side, tvar, itemvar, spatial, Jsym, item_rank, region=None):
     """for item in pyramid[::-1]: <tvar> = one_inverse_level(<tvar>, item)"""
-    def rule(it, node, seq, env):
+    def rule(it, node, seq, env, tvar=tvar):
         c = ctx()
+        tvar, _ = loop_state(node, env, tvar, None)
+        if tvar is None:
+            raise Unsupported('synthesis loop without a carried tensor')
+        side.names = (tvar, None)
         side.rec.append(('init-inv', env[tvar], seq))
         T0 = env[tvar]
         dims = _fresh_dims('n', spatial)
